@@ -79,7 +79,9 @@ def _case(draw):
         for _ in range(draw(st.integers(1, 4))):
             tid += 1
             uid = draw(st.one_of(st.sampled_from(hosted), st.sampled_from([1, 2, 9])))
-            reqs.append({'uid': uid, 'tid': tid, 'pdu': draw(_req()).hex()})
+            reqs.append({'uid': uid, 'tid': tid, 'pdu': draw(_req()).hex(),
+                         # MBAP protocol identifier of the request (socket framing only); clients send 0
+                         'pid': draw(st.sampled_from([0, 0, 0, 0, 1, 0xFFFF, 0x0100]))})
         conns.append({'requests': reqs, 'cuts': draw(gens.cuts()) if variant == 'stream' else ['frames']})
     merge = draw(st.lists(st.integers(0, nconn - 1), min_size=0, max_size=20))
     return {'variant': variant, 'framing': framing, 'single': single, 'hosted': hosted,
@@ -102,7 +104,7 @@ def _script(case):
     per_conn_chunks = []
     frames = []
     for c in case['conns']:
-        fs = [refframe.build(framing, r['uid'], bytes.fromhex(r['pdu']), r['tid'], 0) for r in c['requests']]
+        fs = [refframe.build(framing, r['uid'], bytes.fromhex(r['pdu']), r['tid'], r.get('pid', 0) if framing == 'tcp' else 0) for r in c['requests']]
         frames.append(fs)
         if c['cuts'] == ['frames']:
             packed, pk = [], list(case.get('pack') or [])
@@ -206,6 +208,9 @@ def run_case(case):
         allf = [f for fs in frames for f in fs] + [p for ps in predicted.values() for p in ps if isinstance(p, bytes)]
         if any(refframe.binary_fragile(f) for f in allf):
             return Outcome([], labels + ['excluded-binary-delimiter'], False)
+    nonzero_pid = framing == 'tcp' and any(r.get('pid') for c in case['conns'] for r in c['requests'])
+    if nonzero_pid:
+        labels.append('nonzero-protocol-id')
     interleaved = len(case['conns']) >= 2 and any(script[i][0] != script[i + 1][0] for i in range(len(script) - 1))
     if any(len(it) > 2 for it in script):
         labels.append('burst')
@@ -260,7 +265,9 @@ def run_case(case):
                     if g is None:
                         discs.append(Disc('model-response-count', '%s/%s connection %d: %d response frames, the model predicts more' % (fe, framing, k, len(got))))
                         break
-                    if w is not None and refframe.build(framing, g['uid'] or 0, g['pdu'], g['tid'] or 0, g['pid'] or 0) != w:
+                    # the protocol id of the answer is only predicted for requests that carry 0 (what to echo otherwise is not the model's business;
+                    # the front-ends still have to agree on it byte for byte)
+                    if w is not None and refframe.build(framing, g['uid'] or 0, g['pdu'], g['tid'] or 0, 0 if nonzero_pid else (g['pid'] or 0)) != w:
                         discs.append(Disc('model-response', '%s/%s connection %d: sent %s, model predicts %s' % (fe, framing, k, g['pdu'].hex()[:80], w.hex()[:80])))
                         break
                     j += 1
